@@ -26,7 +26,8 @@ SLOTS = {
 }
 # anchors by name that are nevertheless inlined for ONE owner: the rules that concern them are phrased on their effects in the caller,
 # so that folding the helper into its caller by hand changes nothing
-SOFT = (('sequential::SequentialSolver', 'abort_search'),)
+SOFT = (('sequential::SequentialSolver', 'abort_search'), ('clean::Mdd', '_maybe_update_cache'), ('pooled::Pooled', '_maybe_update_cache'),
+        ('no_duplicate::NoDupFringe', 'process_action'))
 MAX_BLOCKS = 60
 
 
@@ -55,12 +56,33 @@ def _remap(x, lo, bo, po):
     return x
 
 
+_REF_METHODS = None
+
+
+def _ref_methods():
+    """{owner: set(method names)} of the reference profile: a slot name protects a function only where the reference has it (a new
+    `Node::new` constructor helper is not the solver's `new`)"""
+    global _REF_METHODS
+    if _REF_METHODS is None:
+        import json, os
+        p = os.path.join(os.path.dirname(os.path.abspath(__file__)), 'canon_ref.json')
+        try:
+            with open(p) as f:
+                _REF_METHODS = {o: set(ms) for o, ms in json.load(f).get('methods', {}).items()}
+        except Exception:
+            _REF_METHODS = {}
+    return _REF_METHODS
+
+
 def inlinable(doc, name, children):
     h = doc['bodies'].get(name)
     if h is None or h['kind'] not in ('fn', 'method'):
         return False
     if h.get('name') in SLOTS and not any((h.get('impl_self_adt') or '').endswith(o) and h.get('name') == n for (o, n) in SOFT):
-        return False
+        rm = _ref_methods()
+        owner = h.get('impl_self_adt') or name.rsplit('::', 1)[0]
+        if not rm or h.get('name') in rm.get(owner, ()) or not h.get('impl_self_adt'):
+            return False
     if h.get('impl_trait') or h.get('trait_default'):
         return False
     if len(h['blocks']) > MAX_BLOCKS:
